@@ -25,6 +25,7 @@ def run_scenarios(scenarios, workdir, name, timeout=1500, race=False):
     open(out, "w").close()
     todo = list(scenarios)
     hung = []
+    crashed = []
     rc, log = 0, ""
     part = 0
     while todo:
@@ -59,6 +60,18 @@ def run_scenarios(scenarios, workdir, name, timeout=1500, race=False):
             rc = 0
             continue
         if rc != 0:
+            # the driver died (panic / bubble deadlock) while running the scenario after the last completed one:
+            # keep the log, retry that scenario once; a second death on the same scenario is reported by the caller
+            culprit = todo[done]["id"] if done < len(todo) else None
+            os.makedirs(os.path.join(vlib.REPLAYS, "driver_logs"), exist_ok=True)
+            with open(os.path.join(vlib.REPLAYS, "driver_logs", "%s_part%d.log" % (name, part)), "w") as f:
+                f.write("culprit: %s\n" % culprit)
+                f.write(log[-200000:])
+            if culprit is not None and culprit not in crashed:
+                crashed.append(culprit)
+                todo = todo[done:]
+                rc = 0
+                continue
             break
         todo = []
     begun = 0
